@@ -103,22 +103,27 @@ Definition row_empty (r : obs_row) : bool :=
   str_empty (or_hits r) && str_empty (or_time r) && str_empty (or_perhit r) && str_empty (or_percent r).
 
 (* ---- one block ------------------------------------------------------------------------- *)
-Fixpoint rows_positions (start : Z) (flines : option (list string)) (rows : list obs_row) : bool :=
+(* the text beside a row: that line of the file, or - only when the stream's encoding cannot
+   encode that line - the fixed placeholder *)
+Definition expected_text (e : encoding) (l : string) : string :=
+  if encodable_in e l then l else encode_fallback.
+
+Fixpoint rows_positions (e : encoding) (start : Z) (flines : option (list string)) (rows : list obs_row) : bool :=
   match rows with
   | [] => true
   | r :: rest =>
       (or_lineno r =? start)
       && match flines with
-         | None => str_empty (or_text r) && rows_positions (start + 1) None rest
+         | None => str_empty (or_text r) && rows_positions e (start + 1) None rest
          | Some [] => false                       (* a row beyond the end of the file *)
-         | Some (l :: ls) => String.eqb (or_text r) l && rows_positions (start + 1) (Some ls) rest
+         | Some (l :: ls) => String.eqb (or_text r) (expected_text e l) && rows_positions e (start + 1) (Some ls) rest
          end
   end.
 
 Definition count_rows (l : Z) (rows : list obs_row) : Z :=
   Z.of_nat (length (filter (fun r => or_lineno r =? l) rows)).
 
-Definition block_ok (unit ou : Q) (fs : files) (e : entry) (b : obs_block) : bool :=
+Definition block_ok (enc : encoding) (unit ou : Q) (fs : files) (e : entry) (b : obs_block) : bool :=
   let '((fn, start, name), tm) := e in
   let '(ex, flines) := lookup_file fs fn start in
   let tot := total_time tm in
@@ -128,7 +133,7 @@ Definition block_ok (unit ou : Q) (fs : files) (e : entry) (b : obs_block) : boo
       | None => negb ex
       end)
   && g_close 6 (ob_total b) (inject_Z tot * unit)%Q
-  && rows_positions start (if ex then Some flines else None) (ob_rows b)
+  && rows_positions enc start (if ex then Some flines else None) (ob_rows b)
   && forallb (fun t => (count_rows (t_line t) (ob_rows b) =? 1)
                        && forallb (fun r => negb (or_lineno r =? t_line t) || cells_ok unit ou tot t r)
                                   (ob_rows b)) tm
@@ -149,15 +154,17 @@ Definition key_eq (a b : key) : bool :=
 Definition summary_ok (unit : Q) (e : entry) (s : string * key) : bool :=
   key_eq (fst e) (snd s) && f_close 2 (fst s) (inject_Z (total_time (snd e)) * unit)%Q.
 
-Definition spec_ok (unit : Q) (output_unit : option Q) (fs : files) (o : options) (st : stats)
-           (ob : obs) : bool :=
+Definition spec_ok_enc (enc : encoding) (unit : Q) (output_unit : option Q) (fs : files) (o : options)
+           (st : stats) (ob : obs) : bool :=
   let ou := match output_unit with Some u => u | None => unit end in
   let expected := filter (spec_shown (o_stripzeros o)) (stats_order (o_sort o) st) in
   g_close 6 (o_unit ob) ou
-  && (if o_details o then forallb2 (block_ok unit ou fs) expected (o_blocks ob)
+  && (if o_details o then forallb2 (block_ok enc unit ou fs) expected (o_blocks ob)
       else list_empty (o_blocks ob))
   && (if o_summarize o then forallb2 (summary_ok unit) expected (o_summary ob)
       else list_empty (o_summary ob)).
+
+Definition spec_ok := spec_ok_enc Utf8.
 
 (* ---- model vs observation ---------------------------------------------------------------- *)
 Definition row_agrees (r : row) (x : obs_row) : bool :=
@@ -211,3 +218,11 @@ Definition print_stats_case_ok (unit : Q) (output_unit : option Q) (E : env) (fs
            (st : stats) (ob : obs) : bool * bool :=
   (report_agrees (print_stats_report (mkLineStats st unit) output_unit o E) ob,
    spec_ok unit output_unit fs o st ob).
+
+(* a stream with a strict non-UTF-8 encoding (io.TextIOWrapper(..., encoding='ascii' / 'latin-1'),
+   PYTHONIOENCODING for the command lines): whichever entry point printed the report, it is
+   show_text with the formatter's `encodable` test set to that encoding *)
+Definition case_ok_enc (enc : encoding) (unit : Q) (output_unit : option Q) (E : env) (fs : files)
+           (o : options) (st : stats) (ob : obs) : bool * bool :=
+  (report_agrees (show_text_enc enc unit output_unit E o st) ob,
+   spec_ok_enc enc unit output_unit fs o st ob).
